@@ -362,7 +362,7 @@ func (s *Solver) Discharge(name string, text string) SolveResult {
 	s.nQueries++
 	id := s.nQueries
 	s.mu.Unlock()
-	file := filepath.Join(s.workDir, fmt.Sprintf("q%05d_%s.smt2", id, sanitize(name)))
+	file := filepath.Join(s.workDir, fmt.Sprintf("q%05d_%s.smt2", id, tailName(name)))
 	os.WriteFile(file, []byte(text), 0o644)
 	quick := 2 * time.Second
 	if s.timeout < quick {
@@ -408,7 +408,7 @@ func (s *Solver) Cover(name, text string) SolveResult {
 	s.nQueries++
 	id := s.nQueries
 	s.mu.Unlock()
-	file := filepath.Join(s.workDir, fmt.Sprintf("c%05d_%s.smt2", id, sanitize(name)))
+	file := filepath.Join(s.workDir, fmt.Sprintf("c%05d_%s.smt2", id, tailName(name)))
 	os.WriteFile(file, []byte(text), 0o644)
 	r := runSolver(solverCmds[0], file, 2*time.Second)
 	s.mu.Lock()
@@ -558,4 +558,21 @@ func (e *Engine) dischargeAll(s *Solver, obls []*Obligation, workers int) []*Obl
 		out = append(out, byName[n])
 	}
 	return out
+}
+
+// tailName: file-name-safe suffix of an obligation name (the informative part is at the end).
+func tailName(name string) string {
+	var b strings.Builder
+	for _, r := range name {
+		if r >= 'a' && r <= 'z' || r >= 'A' && r <= 'Z' || r >= '0' && r <= '9' || r == '_' {
+			b.WriteRune(r)
+		} else {
+			b.WriteRune('_')
+		}
+	}
+	t := b.String()
+	if len(t) > 60 {
+		t = t[len(t)-60:]
+	}
+	return t
 }
